@@ -31,6 +31,22 @@ def mk_ports_cfg(cfg):
                     multiclient=mcfg)
 
 
+def _origin(cfg, origin_enum):
+    """'create' / 'import', or one of the deliberately invalid values 'RAW:...' (not a member of the enumeration)."""
+    fac = cfg.get('fac', 'create')
+    if fac == 'create':
+        return origin_enum.CREATE
+    if fac == 'import':
+        return origin_enum.IMPORT
+    import enum  # pylint: disable=import-outside-toplevel
+
+    class OtherOrigin(enum.Enum):
+        CREATE = 'Create'
+        IMPORT = 'Import'
+    return {'RAW:None': None, 'RAW:str': 'create', 'RAW:value': 'Create', 'RAW:int': 0,
+            'RAW:other-enum-create': OtherOrigin.CREATE, 'RAW:other-enum-import': OtherOrigin.IMPORT}[fac]
+
+
 def mk_configuration(model, cfg, fct=None, ports_cfg=None):
     from dznpy.adv_shell import Configuration  # pylint: disable=import-outside-toplevel
     from dznpy.adv_shell.common import FacilitiesOrigin  # pylint: disable=import-outside-toplevel
@@ -41,8 +57,7 @@ def mk_configuration(model, cfg, fct=None, ports_cfg=None):
                          output_basename_suffix=cfg.get('suffix', 'Shell'),
                          fqn_encapsulee_name=ns_ids_t(list(model['encapsulee'])),
                          ports_cfg=ports_cfg if ports_cfg is not None else mk_ports_cfg(cfg),
-                         facilities_origin=FacilitiesOrigin.CREATE if cfg.get('fac', 'create') == 'create'
-                         else FacilitiesOrigin.IMPORT,
+                         facilities_origin=_origin(cfg, FacilitiesOrigin),
                          copyright=cfg.get('copyright', '(c)'),
                          support_files_ns_prefix=prefix,
                          creator_info=cfg.get('creator'),
